@@ -17,6 +17,7 @@ use std::panic::AssertUnwindSafe;
 use std::rc::Rc;
 
 const TOL: f64 = 1e-6;
+pub const TOL_MARK: f64 = TOL;
 
 fn emit(ctx: &mut Ctx, prop: &str, clause: &str, sig: &str, msg: String, detail: Value) {
     if ctx.prop == prop {
